@@ -60,7 +60,7 @@ def _register_extras():
 # flight identifiers - as themselves ("small") or as neighbours around a 19-digit composite key ("wide":
 # date + serial, consecutive integers that no float64 can tell apart).  Set per behaviour by run_behaviour.
 WIDE_BASE = 2026011500000000000
-_idr = {'wide': False, 'zero': False}
+_idr = {'wide': False, 'zero': False, 'nan': False}
 
 
 def cid(k: int) -> int:
@@ -97,7 +97,9 @@ def make_payload(p: int, fid: int, big: bool = False, missing: str | None = None
     if missing != 'starting_mass':
         t.starting_mass = p * 1000.0 + 0.5
     if missing != 'total_fuel_mass':
-        t.total_fuel_mass = p * 100.0 + 0.25
+        # StoreGen.tla PayloadForms "nan_scalar": NaN is a value a float scalar may hold (stored and read back as NaN);
+        # payload 2 carries it in that form (also in the files of the start states)
+        t.total_fuel_mass = float('nan') if (_idr.get('nan') and p == 2) else p * 100.0 + 0.25
     t.n_climb = 1
     t.n_cruise = n - 2
     t.n_descent = 1
@@ -124,7 +126,8 @@ def ident(traj, big: bool) -> dict:
             if not np.array_equal(np.asarray(getattr(traj, f)), np.asarray(getattr(ref, f))):
                 return {'p': 'corrupt', 'id': fid, 'why': f'field {f}'}
         for f in ('starting_mass', 'total_fuel_mass', 'n_climb', 'n_cruise', 'n_descent'):
-            if getattr(traj, f) != getattr(ref, f):
+            a, b = getattr(traj, f), getattr(ref, f)
+            if a != b and not (isinstance(a, float | np.floating) and isinstance(b, float | np.floating) and np.isnan(a) and np.isnan(b)):
                 return {'p': 'corrupt', 'id': fid, 'why': f'field {f}'}
         if traj.name not in (ref.name,):
             return {'p': 'corrupt', 'id': fid, 'why': 'name'}
@@ -306,6 +309,7 @@ def run_behaviour(beh: dict, big=False, cache_mb=None, skip_bad=False, want=None
     warnings.simplefilter('ignore')
     _idr['wide'] = beh.get('idr') == 'wide'
     _idr['zero'] = beh.get('idr') == 'zero_based'
+    _idr['nan'] = beh.get('payload') == 'nan_scalar'
     r = StoreRunner(big=big, cache_mb=cache_mb)
     r.entry = beh.get('entry', 'factory')
     universe_ids = sorted({it['id'] for it in beh['added'] if it['id']} | {1, 2, 3, 7})
@@ -323,7 +327,14 @@ def run_behaviour(beh: dict, big=False, cache_mb=None, skip_bad=False, want=None
         return False
 
     try:
-        r.prepare(beh['start'], beh.get('flavour'))
+        try:
+            r.prepare(beh['start'], beh.get('flavour'))
+        except MachineryError:
+            raise
+        except Exception as e:
+            # the start state is made through the public API as well (create, two additions, close)
+            return {'prop': 'C10' if want == 'C10' else 'C07', 'also': 'C10', 'step': -1, 'op': 'add', 'arg': 'start-state', 'what': f'start-state-raised-{type(e).__name__}',
+                    'desc': f'writing the start state (create, add payloads 1 and 2, close; payload form {beh.get("payload")}) raised {type(e).__name__}: {e}', 'after_bad': False, 'got': {}}
         has_bad = False
         spec_items = None
         ids_in_play = False
